@@ -24,8 +24,11 @@ R3 observation only: `all(self.termination_map)` iterates the keys (dead decisio
 R4 `LoopCombinator._product`: the first combination of an instance creates the counter with 0 under
    the instance's full tag and gets suffix `.0`; later ones increment `iteration_map[prefix]` by one
    *before* using it as the last component.  `LoopCombinatorStep.run` stops re-arming a port exactly
-   when it is terminated *and* its iteration checklist is empty (truth table), adds a started iteration
-   to the checklist and removes it on its IterationTerminationToken.  `LoopTerminationCombinator._product`
+   when it is terminated *and* its iteration checklist is empty (truth table); both atoms of that guard must be
+   keyed by the completed task's own name, i.e. the `<task>.get_name()` value under which `terminated` is filled
+   (through local aliases / a temporary holding the checklist entry) -- another key (a stale loop variable such as
+   `port_name`, the step name, another task) is reported as a violation naming the guard, not refused.  It adds a
+   started iteration to the checklist and removes it on its IterationTerminationToken.  `LoopTerminationCombinator._product`
    emits one IterationTerminationToken, tagged by get_tag of the combination, per output item.
 
 All rules of DESIGN.md section 3 (C06) are implemented; R3 is an observation by design.  Additions: the
@@ -712,8 +715,13 @@ def _loop_combinator_step(ctx):
             if any(isinstance(a, (ast.For, ast.AsyncFor)) and in_subtree(c, a) for a in ast.walk(wl)):
                 rearm.append(c)
     ctx.ob("R4", "LoopCombinatorStep.run re-arms its ports", len(rearm) >= 1, func=f, node=wl, instance="lcs:rearm:exists", message="no port is re-armed inside the loop")
-    terminated_lists = {c.func.value.id for c in f.calls() if method_call(c, "append") is not None and isinstance(c.func.value, ast.Name)
-                        and len(c.args) == 1 and is_task_name(c.args[0], nid_of(f, c))}
+    # the lists filled with the name of a task whose port delivered its termination token, with the origin of the
+    # appended key (`<task>.get_name()`): the guard of the re-arm must look the completed task up under that key
+    terminated_lists: dict = {}
+    for c in f.calls():
+        if method_call(c, "append") is not None and isinstance(c.func.value, ast.Name) and len(c.args) == 1 and is_task_name(c.args[0], nid_of(f, c)):
+            terminated_lists.setdefault(c.func.value.id, []).append(single_origin(f, c.args[0], nid_of(f, c)))
+    fill_keys = [o for os_ in terminated_lists.values() for o in os_]
     for c in rearm:
         cn = nid_of(f, c)
         guards = [t for t in g.nodes.values() if t.kind == "test" and in_subtree(t.ast, wl) and g.dominates(t.id, cn)
@@ -726,22 +734,51 @@ def _loop_combinator_step(ctx):
         t = guards[-1]
         edge = "t" if only_via(g, t.id, "t", cn) else "f"
 
+        wrong_keys: list = []
+
+        def container(x):
+            """(expression, CFG node where it is evaluated) of the container an atom tests, through one local temporary."""
+            if isinstance(x, ast.Name):
+                d = name_def(f, x, t.id)
+                if d is not None and d.kind in ("assign", "walrus") and d.index is None and d.value is not None and d.nid is not None:
+                    return d.value, d.nid
+            return x, t.id
+
+        def own_key(k, what, at=None) -> None:
+            """The atom is about the completed task only if it is keyed by the task's own name, i.e. the value under
+            which `terminated` is filled (`<task>.get_name()`, through local aliases).  Any other key (a port name left
+            over from another loop, a constant, another task's name) is a *violation* of the guard, not an unreadable
+            shape: the atom is still tabulated so that the truth table is reported independently."""
+            o = single_origin(f, k, t.id if at is None else at)
+            if not (method_call(o, "get_name") is not None and any(same(o, fk) for fk in fill_keys)):
+                msg = f"{what} is keyed by `{unparse(k)}`" + (f" (= `{unparse(o)}`)" if o is not None and not same(o, k) else "")
+                if msg not in wrong_keys:
+                    wrong_keys.append(msg)
+
         def atom(e):
             if isinstance(e, ast.Compare) and len(e.ops) == 1 and isinstance(e.ops[0], (ast.In, ast.NotIn)) and isinstance(e.comparators[0], ast.Name) \
-                    and e.comparators[0].id in terminated_lists and is_task_name(e.left, t.id):
+                    and e.comparators[0].id in terminated_lists:
+                own_key(e.left, f"membership in `{e.comparators[0].id}`")
                 return ("terminated", isinstance(e.ops[0], ast.In))
             em = emptiness_atom(e)
             if em is not None:
                 x, pol = em
-                if isinstance(x, ast.Subscript) and dotted(x.value) == CHK and is_task_name(x.slice, t.id):
+                x, xn = container(x)
+                if isinstance(x, ast.Subscript) and dotted(x.value) == CHK and not isinstance(x.slice, ast.Slice):
+                    own_key(x.slice, "the iteration checklist", xn)
                     return ("empty", pol)
                 return None
-            if isinstance(e, ast.Subscript) and dotted(e.value) == CHK and is_task_name(e.slice, t.id):
+            x, xn = container(e)
+            if isinstance(x, ast.Subscript) and dotted(x.value) == CHK and not isinstance(x.slice, ast.Slice):
+                own_key(x.slice, "the iteration checklist", xn)
                 return ("empty", False)  # truthy = non-empty
             return None
 
         folded = fold_bool(t.ast, atom)
         ctx.require(folded is not None, f"C06.R4: LoopCombinatorStep.run: re-arm guard `{unparse(t.ast)}` has atoms that are not understood")
+        ctx.ob("R4", "LoopCombinatorStep.run: the re-arm guard looks the completed task up under its own name", not wrong_keys, func=f, node=t.ast, instance="lcs:rearm:key",
+               message=f"re-arm guard `{unparse(t.ast)}`: " + "; ".join(wrong_keys) + f", not by the completed task's own name `{unparse(fill_keys[0]) if fill_keys else '<task>.get_name()'}` "
+               "(the key under which terminated ports are recorded): a terminated port is re-armed for ever / a live port is dropped")
         names, table = folded
         bad = []
         for term in (False, True):
@@ -871,6 +908,15 @@ VARIANTS = [
       "if not (task_name in terminated and len(self.iteration_termination_checklist[task_name]) == 0):", "if not task_name in terminated:", "R4"),
     V("LoopCombinatorStep: or instead of and", SFILE, _LR,
       "task_name in terminated and len(self.iteration_termination_checklist[task_name]) == 0", "task_name in terminated or len(self.iteration_termination_checklist[task_name]) == 0", "R4"),
+    V("LoopCombinatorStep: guard tests another name in terminated (seeded change C06b-2)", SFILE, _LR,
+      "if not (task_name in terminated and len(self.iteration_termination_checklist[task_name]) == 0):",
+      "if not (port_name in terminated and len(self.iteration_termination_checklist[task_name]) == 0):", "R4"),
+    V("LoopCombinatorStep: guard reads the checklist of another port", SFILE, _LR,
+      "if not (task_name in terminated and len(self.iteration_termination_checklist[task_name]) == 0):",
+      "if not (task_name in terminated and len(self.iteration_termination_checklist[port_name]) == 0):", "R4"),
+    V("LoopCombinatorStep: guard tests the step name (De Morgan form)", SFILE, _LR,
+      "if not (task_name in terminated and len(self.iteration_termination_checklist[task_name]) == 0):",
+      "if self.name not in terminated or len(self.iteration_termination_checklist[task_name]) > 0:", "R4"),
     V("LoopCombinatorStep: started iterations not recorded", SFILE, _LR, "self.iteration_termination_checklist[task_name].add(token.tag)", "pass", "R4"),
     V("LoopTerminationCombinator: one token per input item", CFILE, _LT, "for k in self.output_items}", "for k in schema}", "R4"),
     V("LoopTerminationCombinator: root tag", CFILE, _LT, "IterationTerminationToken(tag=tag)", "IterationTerminationToken(tag='0')", "R4"),
@@ -909,4 +955,8 @@ VARIANTS = [
     V("benign: LoopCombinatorStep guard rewritten with De Morgan", SFILE, _LR,
       "if not (task_name in terminated and len(self.iteration_termination_checklist[task_name]) == 0):",
       "if task_name not in terminated or len(self.iteration_termination_checklist[task_name]) > 0:", None),
+    V("benign: LoopCombinatorStep guard through an alias of the task name and a direct get_name()", SFILE, _LR,
+      "                if not (task_name in terminated and len(self.iteration_termination_checklist[task_name]) == 0):",
+      "                done_name = task_name\n                pending = self.iteration_termination_checklist[task.get_name()]\n"
+      "                if not (done_name in terminated and len(pending) == 0):", None),
 ]
